@@ -53,6 +53,9 @@ var ampTmpls = []ampTmpl{
 	{name: "arg:sub(2)", src: `local s = ... return #s:sub(2)`, arg: "x", maxN: 100000000},
 	{name: "arg:gsub(x,yy)", src: `local s = ... return #(s:gsub("x", "yy"))`, arg: "x", maxN: 100000000, retBytes: true},
 	{name: "arg:gsub(.,%0%0)", src: `local s = ... return #(s:gsub(".", "%0%0"))`, arg: "x", maxN: 100000000, retBytes: true},
+	{name: "arg:gsub(^.*$,%0x100)", src: `local s = ... return #(s:gsub("^.*$", ("%0"):rep(100)))`, arg: "x", maxN: 1000000, retBytes: true},
+	{name: "arg:gsub((.*),%1x100)", src: `local s = ... return #(s:gsub("^(.*)$", ("%1"):rep(100)))`, arg: "x", maxN: 1000000, retBytes: true},
+	{name: "rep(N/100):gsub(^.*$,%0x100)", src: `local s = ("x"):rep(N // 100) return #(s:gsub("^.*$", ("%0"):rep(100)))`, retBytes: true},
 	{name: "arg:gsub(x,fn)", src: `local s = ... return #(s:gsub("x", function(c) return "zz" end))`, arg: "x", maxN: 1000000, retBytes: true},
 	{name: "arg:gsub(x,tbl)", src: `local s = ... return #(s:gsub("x", {x = "zz"}))`, arg: "x", maxN: 100000000, retBytes: true},
 	{name: "arg:byte(1,-1)", src: `local s = ... return select("#", s:byte(1, -1))`, arg: "x", maxN: 100000000},
